@@ -15,8 +15,7 @@ use std::collections::{BTreeMap, HashSet};
 use tmelcrypt::HashVal;
 
 fn restart(s: &Sealed) -> Result<Sealed, String> {
-    let db = s.raw_coins_smt().database();
-    guard(|| SealedState::from_block(&s.to_block(), &s.raw_stakes(), &db)).map_err(|p| p.class())
+    guard(|| crate::world::restart_from_disk(s)).map_err(|p| p.class())
 }
 
 #[derive(Clone)]
@@ -443,5 +442,5 @@ pub fn run(run: &Run) {
     run.set("d1_restart_point_depth", json!(d1));
     run.set("d2_continuation_depth", json!(d2));
     run.sample(json!({"restart_point": ["genesis[Custom02]", "open", "overpay(coin)", "seal(None)"], "continuation": ["open", "xfer(coin)", "seal(delta=3,dest=..)"], "oracle": "same accept/reject and same header (and tips) in both lineages at every step"}));
-    run.assume("the restarted state is built from S.to_block(), S.raw_stakes() and the same content-addressed store, as a node would do");
+    run.assume("the restarted state is built from the serialised bytes of S.to_block(), a stake set built anew from the documents of S.raw_stakes(), and the same content-addressed store, as a node would do");
 }
